@@ -264,6 +264,11 @@ pub fn run(c: &C05Case) -> Outcome {
 							if remaining <= i128::from(c.delay_run.unwrap_or(0)) / 2 + i128::from(c.debounce) {
 								break "boundary";
 							}
+						} else if mode == 2 && r.signals.iter().any(|(_, sg)| *sg == SIGS[(c.stop_signal % 3) as usize].1) {
+							// restart mode and this run has already been told to stop (a change sent during the
+							// previous grace period is acted on as soon as the replacement is up: controls queue
+							// behind a graceful stop): it is in its own grace period, not "clearly mid-run" -
+							// wait for its replacement
 						} else if el >= 150 && remaining >= i128::from(slack_ms) + 50 {
 							// "clearly mid-run": the command will still be running when the handler has acted on the
 							// change (debounce + --delay-run) even if the handler is late by the whole slack
@@ -364,6 +369,9 @@ pub fn run(c: &C05Case) -> Outcome {
 	};
 	let (runs, overlaps) = parse_runs(&logs);
 	let dump = || format!("\ncase: {c:?}\nchanges: {sent:?}\nruns: {runs:?}\nlog:\n{}", std::fs::read_to_string(logs.log()).unwrap_or_default());
+	if std::env::var_os("VERIF_C05_DUMP").is_some() {
+		let _ = std::fs::write(std::env::var("VERIF_C05_DUMP").unwrap(), dump());
+	}
 	let mid: Vec<&Sent> = sent.iter().filter(|s| s.class == "mid-run").collect();
 	let idle: Vec<&Sent> = sent.iter().filter(|s| s.class == "idle").collect();
 	let fuzzy = sent.iter().filter(|s| !matches!(s.class, "mid-run" | "idle")).count();
@@ -451,6 +459,13 @@ pub fn run(c: &C05Case) -> Outcome {
 					continue;
 				}
 				let Some(r) = run_of(s) else { continue };
+				if r.signals.iter().any(|(t, sg)| *t < s.before && *sg == stop_sig) {
+					// the run had been told to stop before this change was sent (the helper's log line can
+					// lag the positioning loop): the change fell into a grace period, which is the
+					// "during-grace" class and not judged here
+					o.label("mid-run-change-found-in-grace");
+					continue;
+				}
 				let sig = r.signals.iter().find(|(t, sg)| *t >= s.before && *sg == stop_sig);
 				let Some((tsig, _)) = sig else {
 					if r.end.map_or(false, |e| e < s.after + u128::from(slack_ms) * 1_000_000) {
